@@ -1516,7 +1516,13 @@ class Cell(Bucket):
         if name not in self.identity_groups:
             self.identity_groups[name] = IdentityGroup(count)
         else:
-            self.identity_groups[name].adjust(count)
+            group = self.identity_groups[name]
+            group.adjust(count)
+            # Identities still held by apps (e.g. group was shrunk and grown
+            # again before the apps were rescheduled) are not available.
+            for app in six.itervalues(self.apps):
+                if app.identity_group_ref is group:
+                    group.available.discard(app.identity)
 
     def remove_identity_group(self, name):
         """Remove identity group.
